@@ -70,8 +70,14 @@ func vfGenProdConf(t *rapid.T, emph string) vfProdConf {
 	c.MaxMessageBytes = 1000000
 	if emph == "C16" {
 		c.MaxMessageBytes = rapid.IntRange(80, 600).Draw(t, "maxMessageBytes")
-		if rapid.IntRange(0, 2).Draw(t, "smallMaxRequest") == 0 {
+		switch rapid.IntRange(0, 5).Draw(t, "smallMaxRequest") {
+		case 0, 1:
 			c.MaxRequestSize = int32(10*1024 + rapid.IntRange(300, 3000).Draw(t, "maxRequestSize"))
+		case 2:
+			// messages larger than the 10 KiB of slack the producer keeps below MaxRequestSize: a request that takes one
+			// message too many is really too large for the wire
+			c.MaxMessageBytes = rapid.IntRange(20000, 40000).Draw(t, "bigMaxMessageBytes")
+			c.MaxRequestSize = int32(rapid.IntRange(40000, 70000).Draw(t, "bigMaxRequestSize"))
 		}
 	}
 	c.ChanBuf = rapid.SampledFrom([]int{0, 1, 4, 256}).Draw(t, "chanBuf")
@@ -183,6 +189,14 @@ func vfGenFaults(t *rapid.T, c *vfProdCase, maxFaults int, idempotentFlavour boo
 			case "fatal":
 				f.Kind = "err"
 				f.Code = rapid.SampledFrom(vfFatalCodes).Draw(t, fmt.Sprintf("f%d.fcode", i))
+				if rapid.IntRange(0, 3).Draw(t, fmt.Sprintf("f%d.anycode", i)) != 0 {
+					// any error code of the protocol (whatever class the producer puts it in: the oracles do not depend on it);
+					// 46 = DUPLICATE_SEQUENCE_NUMBER is an acknowledgement, not a failure
+					f.Code = int16(rapid.IntRange(1, 96).Draw(t, fmt.Sprintf("f%d.anycodev", i)))
+					if f.Code == 46 {
+						f.Code = 56
+					}
+				}
 			case "errApplied":
 				f.Kind = "errApplied"
 				f.Code = rapid.SampledFrom([]int16{7, 20}).Draw(t, fmt.Sprintf("f%d.acode", i))
@@ -471,8 +485,33 @@ func vfGenProdCase(t *rapid.T, emph string) *vfProdCase {
 		if vfVersionAtLeast(c.Conf.Version, "0.11.0.0") {
 			over = 36
 		}
+		if c.Conf.MaxMessageBytes >= 20000 {
+			// big regime: everything on one broker, at least four partitions, and batches accumulate behind a flush
+			// frequency, so that a request fills up with the batches of several partitions
+			for len(c.Topics[0].Leaders) < 4 {
+				c.Topics[0].Leaders = append(c.Topics[0].Leaders, 1)
+			}
+			for ti := range c.Topics {
+				for pi := range c.Topics[ti].Leaders {
+					c.Topics[ti].Leaders[pi] = 1
+				}
+			}
+			c.Conf.FlushMessages, c.Conf.FlushBytes, c.Conf.FlushMaxMessages = 0, 0, 0
+			c.Conf.FlushFreqUs = rapid.SampledFrom([]int{5000, 20000}).Draw(t, "big16.freq")
+			c.Conf.ChanBuf = 256
+		}
 		for i := range c.Msgs {
 			m := &c.Msgs[i]
+			if c.Conf.MaxMessageBytes >= 20000 {
+				// big regime: most values between 8 and 15 KiB, spread over the partitions of one broker
+				if rapid.IntRange(0, 4).Draw(t, fmt.Sprintf("m%d.big16", i)) != 0 {
+					m.ValKind, m.KeyKind, m.NHeaders = 0, 0, 0
+					m.ValLen = rapid.IntRange(8000, 15000).Draw(t, fmt.Sprintf("m%d.bigLen", i))
+					m.Topic = rapid.IntRange(0, len(c.Topics)-1).Draw(t, fmt.Sprintf("m%d.bigTopic", i))
+					m.Part = int32(rapid.IntRange(0, len(c.Topics[m.Topic].Leaders)-1).Draw(t, fmt.Sprintf("m%d.bigPart", i)))
+				}
+				continue
+			}
 			switch rapid.IntRange(0, 3).Draw(t, fmt.Sprintf("m%d.straddle", i)) {
 			case 0:
 				m.ValKind, m.KeyKind, m.NHeaders = 0, 0, 0
